@@ -44,6 +44,7 @@ package conversion
 // path must not share storage), and every stored path ends at the version its key names.
 //@ func (ChainStorage).FindConversionChain
 //@   prop C15
+//@   opt timeout=40
 //@   requires has(cs.Chains, crdName) ==> cs.Chains[crdName] != nil && cs.Chains[crdName].PathsCache != nil && Ends(cs.Chains[crdName].PathsCache)
 //@   modifies all(mapof(cs.Chains[crdName].PathsCache))
 //@   ensures [cache-ends] has(cs.Chains, crdName) ==> Ends(cs.Chains[crdName].PathsCache)
